@@ -93,25 +93,45 @@ Proof.
   injection H as <- <-. now apply copies_forallb.
 Qed.
 
-(* ---------- the body and the loop ---------- *)
-Definition bh (x : string) (v : Z) (env : renv) (G : list (string * gatedef)) (stm : stmt) : option (list stmt * list (list rsrc)) :=
-  if simple_op stm && op_ok env (inst x v stm) then Some ([inst x v stm], ev_of (inst x v stm)) else mod_ok_l x v env G stm.
-
-Lemma bh_fix check_only f x v env G s stm o e :
-  Regs env s -> InLoop x v s -> gates s = G -> bh x v env G stm = Some (o, e) ->
-  exists s1, visit_stmt check_only [] (S f) stm s = Ok ((if check_only then [] else o), s1) /\ DE s s1 /\ Dstep s s1 e.
+Lemma DE_gstack s s' : DE s s' -> gstack s' = gstack s.
 Proof.
-  intros R L HG H. unfold bh in H. destruct (simple_op stm && op_ok env (inst x v stm)) eqn:C.
+  intros D. pose proof (de_core _ _ D) as E.
+  transitivity (gstack (nodepth s')); [destruct s'; reflexivity|]. rewrite E. destruct s; reflexivity.
+Qed.
+
+(* ---------- the body and the loop ---------- *)
+Section Loop.
+(* a further handler for body statements (calls of defined gates, Lang/GateDefProofs.v), right in every loop-body state *)
+Variable hc : string -> Z -> renv -> list (string * gatedef) -> stmt -> option (list stmt * list (list rsrc)).
+Variable nmin : nat.        (* the fuel the handler needs *)
+Hypothesis hc_fix : forall check_only f x v env G s stm o e, (nmin <= S f)%nat ->
+  Regs env s -> InLoop x v s -> gates s = G -> gstack s = [] -> hc x v env G stm = Some (o, e) ->
+  exists s1, visit_stmt check_only [] (S (S f)) stm s = Ok ((if check_only then [] else o), s1) /\ DE s s1 /\ Dstep s s1 e.
+Hypothesis hc_ops : forall x v env G stm o e, hc x v env G stm = Some (o, e) -> forallb (op_ok env) o = true.
+
+Definition bh (x : string) (v : Z) (env : renv) (G : list (string * gatedef)) (stm : stmt) : option (list stmt * list (list rsrc)) :=
+  if simple_op stm && op_ok env (inst x v stm) then Some ([inst x v stm], ev_of (inst x v stm))
+  else match mod_ok_l x v env G stm with Some r => Some r | None => hc x v env G stm end.
+
+Lemma bh_fix check_only f x v env G s stm o e : (nmin <= S f)%nat ->
+  Regs env s -> InLoop x v s -> gates s = G -> gstack s = [] -> bh x v env G stm = Some (o, e) ->
+  exists s1, visit_stmt check_only [] (S (S f)) stm s = Ok ((if check_only then [] else o), s1) /\ DE s s1 /\ Dstep s s1 e.
+Proof.
+  intros Hn R L HG HS H. unfold bh in H. destruct (simple_op stm && op_ok env (inst x v stm)) eqn:C.
   - injection H as <- <-. apply andb_true_iff in C as [Hs Hok].
-    exact (body_op check_only f stm env s x v R L Hs Hok).
-  - eapply mod_fix_l; eauto.
+    exact (body_op check_only (S f) stm env s x v R L Hs Hok).
+  - destruct (mod_ok_l x v env G stm) as [[o' e']|] eqn:Em.
+    + injection H as <- <-. eapply mod_fix_l; eauto.
+    + eapply hc_fix; eauto.
 Qed.
 
 Lemma bh_ops x v env G stm o e : bh x v env G stm = Some (o, e) -> forallb (op_ok env) o = true.
 Proof.
   unfold bh. destruct (simple_op stm && op_ok env (inst x v stm)) eqn:C.
   - intros H. injection H as <- _. apply andb_true_iff in C as [_ Hok]. cbn. now rewrite Hok.
-  - apply mod_ok_l_ops.
+  - destruct (mod_ok_l x v env G stm) as [[o' e']|] eqn:Em.
+    + intros H. injection H as <- <-. eapply mod_ok_l_ops; eauto.
+    + apply hc_ops.
 Qed.
 
 Definition liter (x : string) (env : renv) (G : list (string * gatedef)) (body : list stmt) (v : Z) : option (list stmt * list (list rsrc)) :=
@@ -129,17 +149,18 @@ Fixpoint lall (x : string) (env : renv) (G : list (string * gatedef)) (body : li
                   end
   end.
 
-Lemma body_block_g check_only f x v env G body : forall s parts,
-  Regs env s -> InLoop x v s -> gates s = G -> mapM (bh x v env G) body = Some parts ->
-  exists s', concatMM (visit_stmt check_only [] (S f)) body s = Ok ((if check_only then [] else List.concat (map fst parts)), s') /\
+Lemma body_block_g check_only f x v env G body : (nmin <= S f)%nat -> forall s parts,
+  Regs env s -> InLoop x v s -> gates s = G -> gstack s = [] -> mapM (bh x v env G) body = Some parts ->
+  exists s', concatMM (visit_stmt check_only [] (S (S f))) body s = Ok ((if check_only then [] else List.concat (map fst parts)), s') /\
              DE s s' /\ Dstep s s' (List.concat (map snd parts)).
 Proof.
-  induction body as [|stm body IH]; intros s parts R L HG H; cbn [mapM] in H.
+  intros Hn. induction body as [|stm body IH]; intros s parts R L HG HS H; cbn [mapM] in H.
   - injection H as <-. exists s. split; [destruct check_only; reflexivity|]. split; [apply DE_refl|apply Dstep_same; reflexivity].
   - destruct (bh x v env G stm) as [[o e]|] eqn:Eb; [|discriminate H].
     destruct (mapM (bh x v env G) body) as [parts'|] eqn:Em; [|discriminate H]. injection H as <-.
-    destruct (bh_fix check_only f x v env G s stm o e R L HG Eb) as (s1 & E1 & D1 & S1).
-    destruct (IH s1 parts' (Regs_DE _ _ _ R D1) (InLoop_DE _ _ _ _ L D1)) as (s2 & E2 & D2 & S2); [now rewrite (DE_gates _ _ D1)|reflexivity|].
+    destruct (bh_fix check_only f x v env G s stm o e Hn R L HG HS Eb) as (s1 & E1 & D1 & S1).
+    destruct (IH s1 parts' (Regs_DE _ _ _ R D1) (InLoop_DE _ _ _ _ L D1)) as (s2 & E2 & D2 & S2);
+      [now rewrite (DE_gates _ _ D1)|now rewrite (DE_gstack _ _ D1)|reflexivity|].
     cbn [concatMM]. rewrite (bind_eq _ _ s (if check_only then [] else o) s1 E1).
     rewrite (bind_eq _ _ s1 (if check_only then [] else List.concat (map fst parts')) s2 E2). exists s2.
     split; [unfold ret; destruct check_only; reflexivity|]. split; [eapply DE_trans; eauto|].
@@ -148,9 +169,11 @@ Qed.
 
 Lemma gates_lpush s x v : gates (lpush s x v) = gates s.
 Proof. destruct s; reflexivity. Qed.
+Lemma gstack_lpush s x v : gstack (lpush s x v) = gstack s.
+Proof. destruct s; reflexivity. Qed.
 
-Lemma loop_iterations_g f x a env G body : forall vals s out evs,
-  Top env s -> gates s = G -> is_constant_name x = false -> int32 a = true ->
+Lemma loop_iterations_g f x a env G body : (nmin <= S f)%nat -> forall vals s out evs,
+  Top env s -> gates s = G -> gstack s = [] -> is_constant_name x = false -> int32 a = true ->
   (forall v, In v vals -> int32 v = true) -> lall x env G body vals = Some (out, evs) ->
   exists s',
     (fix go (vals0 : list pyval) : M (list stmt) :=
@@ -158,18 +181,18 @@ Lemma loop_iterations_g f x a env G body : forall vals s out evs,
        | [] => ret []
        | v :: vals' =>
            modify (fun s0 : st => push_scope (push_ctx CBlock s0));;;
-           d <- visit_classical_decl false (visit_call false [] (S f)) (TInt None) x (Some (ELit (VInt a)));;
+           d <- visit_classical_decl false (visit_call false [] (S (S f))) (TInt None) x (Some (ELit (VInt a)));;
            s0 <- getst;;
            match get_visible s0 x with
            | Some x0 => cv <- assign_value (v_kind x0) (v_size x0) v;; modify (fun s1 : st => update_var s1 x (set_val x0 (VVScalar cv)))
            | None => ret tt
            end;;;
-           b0 <- visit_block (visit_stmt false [] (S f)) body;;
+           b0 <- visit_block (visit_stmt false [] (S (S f))) body;;
            modify (fun s1 : st => pop_ctx (pop_scope s1));;;
            rest <- go vals';; ret (d ++ b0 ++ rest)
        end) (map VInt vals) s = Ok (out, s') /\ DE s s' /\ Dstep s s' evs.
 Proof.
-  induction vals as [|v vals IH]; intros s out evs T HG Nc Ha Hv Hl; cbn [lall] in Hl.
+  intros Hn. induction vals as [|v vals IH]; intros s out evs T HG HS Nc Ha Hv Hl; cbn [lall] in Hl.
   - injection Hl as <- <-. exists s. split; [reflexivity|]. split; [apply DE_refl|apply Dstep_same; reflexivity].
   - destruct (liter x env G body v) as [[o e]|] eqn:El; [|discriminate Hl].
     destruct (lall x env G body vals) as [[os es]|] eqn:Ea; [|discriminate Hl]. injection Hl as <- <-.
@@ -181,19 +204,19 @@ Proof.
     rewrite (bind_eq _ _ (lpush s x a) (lpush s x a) (lpush s x a) eq_refl).
     rewrite (bind_eq _ _ (lpush s x a) tt (lpush s x v) (bind_loop_var env s x a v T Nc Iv)).
     pose proof (Regs_lpush env s x v (T_regs _ _ T)) as R1. pose proof (InLoop_lpush env s x v T Nc) as L1.
-    destruct (body_block_g false f x v env G body (lpush s x v) parts R1 L1) as (s4 & E4 & D4 & S4); [now rewrite gates_lpush|exact Ep|].
+    destruct (body_block_g false f x v env G body Hn (lpush s x v) parts R1 L1) as (s4 & E4 & D4 & S4); [now rewrite gates_lpush|now rewrite gstack_lpush|exact Ep|].
     unfold visit_block. rewrite (bind_eq _ _ (lpush s x v) _ s4 E4).
     rewrite (bind_eq _ _ s4 tt (lpop s4) eq_refl).
     pose proof (DE_lpop s x v s4 D4) as D5.
-    destruct (IH (lpop s4) os es (Top_DE _ _ _ T D5)) as (s' & E' & D' & S'); [now rewrite (DE_gates _ _ D5)|exact Nc|exact Ha|intros w Hw; apply Hv; now right|reflexivity|].
+    destruct (IH (lpop s4) os es (Top_DE _ _ _ T D5)) as (s' & E' & D' & S'); [now rewrite (DE_gates _ _ D5)|now rewrite (DE_gstack _ _ D5)|exact Nc|exact Ha|intros w Hw; apply Hv; now right|reflexivity|].
     rewrite (bind_eq _ _ (lpop s4) _ s' E'). exists s'. split; [reflexivity|]. split; [eapply DE_trans; eauto|].
     eapply Dstep_trans; [|exact S'].
     intros N r. rewrite dof_lpop. rewrite (S4 (fun r0 => eq_ind_r (fun z => 0 <= z) (N r0) (dof_lpush s x v r0)) r).
     apply run_evs_ext. intros r0. apply dof_lpush.
 Qed.
 
-Lemma loop_first_iteration_g f x a env G body : forall vals s out evs,
-  Top env s -> gates s = G -> is_constant_name x = false -> int32 a = true ->
+Lemma loop_first_iteration_g f x a env G body : (nmin <= S f)%nat -> forall vals s out evs,
+  Top env s -> gates s = G -> gstack s = [] -> is_constant_name x = false -> int32 a = true ->
   (forall v, In v vals -> int32 v = true) -> lall x env G body vals = Some (out, evs) ->
   exists s',
     (fix go (vals0 : list pyval) : M (list stmt) :=
@@ -201,18 +224,18 @@ Lemma loop_first_iteration_g f x a env G body : forall vals s out evs,
        | [] => ret []
        | v :: vals' =>
            modify (fun s0 : st => push_scope (push_ctx CBlock s0));;;
-           d <- visit_classical_decl true (visit_call true [] (S f)) (TInt None) x (Some (ELit (VInt a)));;
+           d <- visit_classical_decl true (visit_call true [] (S (S f))) (TInt None) x (Some (ELit (VInt a)));;
            s0 <- getst;;
            match get_visible s0 x with
            | Some x0 => cv <- assign_value (v_kind x0) (v_size x0) v;; modify (fun s1 : st => update_var s1 x (set_val x0 (VVScalar cv)))
            | None => ret tt
            end;;;
-           b0 <- visit_block (visit_stmt true [] (S f)) body;;
+           b0 <- visit_block (visit_stmt true [] (S (S f))) body;;
            modify (fun s1 : st => pop_ctx (pop_scope s1));;;
            ret []
        end) (map VInt vals) s = Ok ([], s') /\ DE s s'.
 Proof.
-  intros vals s out evs T HG Nc Ha Hv Hl. destruct vals as [|v vals].
+  intros Hn vals s out evs T HG HS Nc Ha Hv Hl. destruct vals as [|v vals].
   - exists s. split; [reflexivity|apply DE_refl].
   - cbn [lall] in Hl. destruct (liter x env G body v) as [[o e]|] eqn:El; [|discriminate Hl].
     unfold liter in El. destruct (mapM (bh x v env G) body) as [parts|] eqn:Ep; [|discriminate El].
@@ -223,7 +246,7 @@ Proof.
     rewrite (bind_eq _ _ (lpush s x a) (lpush s x a) (lpush s x a) eq_refl).
     rewrite (bind_eq _ _ (lpush s x a) tt (lpush s x v) (bind_loop_var env s x a v T Nc Iv)).
     pose proof (Regs_lpush env s x v (T_regs _ _ T)) as R1. pose proof (InLoop_lpush env s x v T Nc) as L1.
-    destruct (body_block_g true f x v env G body (lpush s x v) parts R1 L1) as (s4 & E4 & D4 & S4); [now rewrite gates_lpush|exact Ep|].
+    destruct (body_block_g true f x v env G body Hn (lpush s x v) parts R1 L1) as (s4 & E4 & D4 & S4); [now rewrite gates_lpush|now rewrite gstack_lpush|exact Ep|].
     unfold visit_block. rewrite (bind_eq _ _ (lpush s x v) [] s4 E4).
     rewrite (bind_eq _ _ s4 tt (lpop s4) eq_refl).
     exists (lpop s4). split; [reflexivity|]. exact (DE_lpop s x v s4 D4).
@@ -261,22 +284,22 @@ Proof.
   apply Z.leb_le in A0, A1, B0, B1. apply andb_true_iff. split; apply Z.leb_le; lia.
 Qed.
 
-Lemma gloop_fix f env G s stm out evs : Top env s -> gates s = G -> gloop_ok env G stm = Some (out, evs) ->
-  exists s', visit_stmt false [] (S (S f)) stm s = Ok (out, s') /\ DE s s' /\ Dstep s s' evs.
+Lemma gloop_fix f env G s stm out evs : (nmin <= S f)%nat -> Top env s -> gates s = G -> gstack s = [] -> gloop_ok env G stm = Some (out, evs) ->
+  exists s', visit_stmt false [] (S (S (S f))) stm s = Ok (out, s') /\ DE s s' /\ Dstep s s' evs.
 Proof.
-  intros T HG H. destruct (gloop_shape env G stm out evs H) as (x & a & b & body & -> & Nc & Ha & Hb & Hn & Hl).
+  intros Hf T HG HS H. destruct (gloop_shape env G stm out evs H) as (x & a & b & body & -> & Nc & Ha & Hb & Hn & Hl).
   cbn [visit_stmt visit_stmt_body]. unfold visit_for.
   rewrite (bind_eq _ _ s _ s (for_values_literal _ a b s Hn)).
-  exact (loop_iterations_g f x a env G body (zrange a b) s out evs T HG Nc Ha (fun v Hv => zrange_int32 a b v Ha Hb Hv) Hl).
+  exact (loop_iterations_g f x a env G body Hf (zrange a b) s out evs T HG HS Nc Ha (fun v Hv => zrange_int32 a b v Ha Hb Hv) Hl).
 Qed.
 
-Lemma gloop_fix_validate f env G s stm out evs : Top env s -> gates s = G -> gloop_ok env G stm = Some (out, evs) ->
-  exists s', visit_stmt true [] (S (S f)) stm s = Ok ([], s') /\ DE s s'.
+Lemma gloop_fix_validate f env G s stm out evs : (nmin <= S f)%nat -> Top env s -> gates s = G -> gstack s = [] -> gloop_ok env G stm = Some (out, evs) ->
+  exists s', visit_stmt true [] (S (S (S f))) stm s = Ok ([], s') /\ DE s s'.
 Proof.
-  intros T HG H. destruct (gloop_shape env G stm out evs H) as (x & a & b & body & -> & Nc & Ha & Hb & Hn & Hl).
+  intros Hf T HG HS H. destruct (gloop_shape env G stm out evs H) as (x & a & b & body & -> & Nc & Ha & Hb & Hn & Hl).
   cbn [visit_stmt visit_stmt_body]. unfold visit_for.
   rewrite (bind_eq _ _ s _ s (for_values_literal _ a b s Hn)).
-  exact (loop_first_iteration_g f x a env G body (zrange a b) s out evs T HG Nc Ha (fun v Hv => zrange_int32 a b v Ha Hb Hv) Hl).
+  exact (loop_first_iteration_g f x a env G body Hf (zrange a b) s out evs T HG HS Nc Ha (fun v Hv => zrange_int32 a b v Ha Hb Hv) Hl).
 Qed.
 
 Lemma lall_ops x env G body vals : forall out evs, lall x env G body vals = Some (out, evs) -> forallb (op_ok env) out = true.
@@ -298,3 +321,4 @@ Lemma gloop_ok_ops env G stm out evs : gloop_ok env G stm = Some (out, evs) -> f
 Proof.
   intros H. destruct (gloop_shape env G stm out evs H) as (x & a & b & body & _ & _ & _ & _ & _ & Hl). eapply lall_ops; eauto.
 Qed.
+End Loop.
